@@ -415,7 +415,12 @@ func mustPassFrom(f *ssa.Function, start *ssa.BasicBlock, startIdx int, targets 
 		st     pathState
 		parent *node
 	}
-	init := make([]byte, len(guards))
+	// correlated branches: an SSA value tested by two or more Ifs has the same
+	// truth value at each of them (until its definition is re-executed), so
+	// `if c {check}; …; if c {effect}` is not treated as four paths.
+	corrIdx := corrConds(f)
+	ng := len(guards)
+	init := make([]byte, ng+len(corrIdx))
 	seen := map[pathState]bool{}
 	queue := []*node{{st: pathState{start, string(init)}}}
 	seen[queue[0].st] = true
@@ -474,6 +479,28 @@ func mustPassFrom(f *ssa.Function, start *ssa.BasicBlock, startIdx int, targets 
 			}
 			if d2 {
 				continue
+			}
+			// correlated conditions
+			if iff, ok := n.st.b.Instrs[len(n.st.b.Instrs)-1].(*ssa.If); ok && len(corrIdx) > 0 {
+				cv, neg := stripNot(iff.Cond)
+				if ci, ok := corrIdx[cv]; ok {
+					val := byte(1) // true
+					if (si == 1) != neg {
+						val = 2
+					}
+					if p2[ng+ci] != 0 && p2[ng+ci] != val {
+						continue // contradicts what this path already knows
+					}
+					p2[ng+ci] = val
+				}
+			}
+			// entering the block that (re)defines a tracked value forgets it
+			for cv, ci := range corrIdx {
+				if in, ok := cv.(ssa.Instruction); ok && in.Block() == s && s != n.st.b {
+					if _, isPhi := cv.(*ssa.Phi); isPhi || s.Dominates(n.st.b) {
+						p2[ng+ci] = 0
+					}
+				}
 			}
 			st := pathState{s, string(p2)}
 			if !seen[st] {
